@@ -182,7 +182,7 @@ fn build(shape: &Shape, leaves: &[Expr], ops: &[Op], li: &mut usize, oi: &mut us
 /// The tree the documented table prescribes for an unparenthesised
 /// operand/operator sequence: higher priority binds tighter, left to right
 /// within a level.
-fn table_tree(leaves: &[Expr], ops: &[Op]) -> Expr {
+pub fn table_tree(leaves: &[Expr], ops: &[Op]) -> Expr {
     fn climb(leaves: &[Expr], ops: &[Op], pos: &mut usize, min: u8) -> Expr {
         let mut lhs = leaves[*pos].clone();
         while *pos < ops.len() && ops[*pos].prio() >= min {
@@ -197,7 +197,7 @@ fn table_tree(leaves: &[Expr], ops: &[Op]) -> Expr {
     climb(leaves, ops, &mut pos, 0)
 }
 
-fn for_each_ops(k: usize, f: &mut dyn FnMut(&[Op])) {
+pub fn for_each_ops(k: usize, f: &mut dyn FnMut(&[Op])) {
     let mut idx = vec![0usize; k];
     loop {
         let ops: Vec<Op> = idx.iter().map(|i| Op::ALL[*i]).collect();
@@ -300,7 +300,7 @@ impl Prop for C06 {
         "C06"
     }
     fn rule(&self) -> String {
-        "operand/operator sequences x0 op1 x1 .. opk xk (k<=5, operands 2 3 5 7 11 13, ops + - * / ^ and the ** synonym) x every bracketing (all binary tree shapes), each rendered with minimal and with full parentheses and compared with the reference evaluator run on the tree; the unparenthesised spelling against the tree the documented table prescribes; `to` chains over length quantities; redundant parentheses; parenthesised groups as function arguments; blank layouts: all combinations of {none,1,2 blanks,tab} per slot for <=2 operators, 4 uniform layouts plus every 1-slot (thorough: 2-slot) deviation beyond, a deviation being any other gap including gaps that mix blank kinds (space+tab, tab+space, spaces+tab+space). Non-trivial = >=2 operators of different priority, or a parenthesis, or a non-canonical layout; distinct = distinct query strings".into()
+        "operand/operator sequences x0 op1 x1 .. opk xk (k<=5, operands 2 3 5 7 11 13, ops + - * / ^ and the ** synonym) x every bracketing (all binary tree shapes), each rendered with minimal and with full parentheses and compared with the reference evaluator run on the tree; the unparenthesised spelling against the tree the documented table prescribes; `to` chains over length quantities; every sequence of <=3 operators over operands that carry a unit (a number with its unit is one value: `2 m ^ 2` is (2 m)^2), also with `**` and in every 1-slot layout deviation; redundant parentheses; parenthesised groups as function arguments; blank layouts: all combinations of {none,1,2 blanks,tab} per slot for <=2 operators, 4 uniform layouts plus every 1-slot (thorough: 2-slot) deviation beyond, a deviation being any other gap including gaps that mix blank kinds (space+tab, tab+space, spaces+tab+space). Non-trivial = >=2 operators of different priority, or a parenthesis, or a non-canonical layout; distinct = distinct query strings".into()
     }
     fn assumptions(&self) -> Vec<String> {
         vec![
@@ -440,6 +440,41 @@ impl Prop for C06 {
                     let g = gaps(&toks);
                     emit("to", render(&toks, &g, &uniform(&g, 1)), &tree, None, sink);
                     emit("to", render(&toks, &g, &uniform(&g, 0)), &tree, None, sink);
+                }
+            });
+        }
+        // operands that carry a unit: a number with its unit is one value, so `2 m ^ 2` (blank before
+        // the operator) is (2 m) ^ 2 and `3 * 2 m ^ 2` is 3 * ((2 m) ^ 2); every sequence of <=3
+        // operators, exponents plain numbers, all other operands lengths (or a leading plain number)
+        let ql: Vec<Expr> = vec![qty("2", "m"), qty("3", "m"), qty("50", "cm"), qty("7", "m")];
+        let nl: Vec<Expr> = vec![num("3"), num("2"), num("3"), num("2")];
+        for k in 1..=3usize {
+            for_each_ops(k, &mut |ops| {
+                for first_plain in [false, true] {
+                    let mut leaves = vec![if first_plain { nl[0].clone() } else { ql[0].clone() }];
+                    for (i, op) in ops.iter().enumerate() {
+                        leaves.push(if *op == Op::Pow { nl[i + 1].clone() } else { ql[i + 1].clone() });
+                    }
+                    let tt = table_tree(&leaves, ops);
+                    if !judged(&tt) {
+                        continue;
+                    }
+                    for pow2 in [false, true] {
+                        if pow2 && !ops.contains(&Op::Pow) {
+                            continue;
+                        }
+                        let mut toks = Vec::new();
+                        for (i, l) in leaves.iter().enumerate() {
+                            if i > 0 {
+                                toks.push(T::Op(if ops[i - 1] == Op::Pow && pow2 { "**" } else { ops[i - 1].text() }));
+                            }
+                            tokens(l, false, false, &mut toks);
+                        }
+                        let g = gaps(&toks);
+                        emit("quantity", render(&toks, &g, &uniform(&g, 1)), &tt, None, sink);
+                        emit("quantity", render(&toks, &g, &uniform(&g, 0)), &tt, None, sink);
+                        emit_layouts("quantity-dev1", &toks, &tt, None, true, if k <= 2 { 1 } else { tier.pick(0, 1) }, sink);
+                    }
                 }
             });
         }
